@@ -123,6 +123,46 @@ func ruleBranchCacheKey(r *Run) {
 				k++
 				rootKeyed := false
 				for d := range dataDeps(key) {
+					// a helper that is handed the root: every call site passes a value that is the repo's root
+					if prm, ok := d.(*ssa.Parameter); ok && typeIs(prm.Type(), "dvid", "UUID") && f.Object() != nil && !f.Object().Exported() {
+						idx := -1
+						for i, q := range f.Params {
+							if q == prm {
+								idx = i
+							}
+						}
+						sites := callSitesOf(w)[f]
+						all := idx >= 0 && len(sites) > 0
+						for _, cs := range sites {
+							ci, ok := cs.(ssa.CallInstruction)
+							if !ok || idx >= len(ci.Common().Args) {
+								all = false
+								continue
+							}
+							okArg := false
+							for d2 := range dataDeps(ci.Common().Args[idx]) {
+								if isFieldLoad(d2, "repoT", "uuid") {
+									okArg = true
+								}
+								if ex, ok := d2.(*ssa.Extract); ok {
+									if nx, ok := ex.Tuple.(*ssa.Next); ok {
+										if rg, ok := nx.Iter.(*ssa.Range); ok && isFieldLoad(rg.X, "repoManager", "repoToUUID") {
+											okArg = true
+										}
+									}
+								}
+								if lk, ok := d2.(*ssa.Lookup); ok && isFieldLoad(lk.X, "repoManager", "repoToUUID") {
+									okArg = true
+								}
+							}
+							if !okArg {
+								all = false
+							}
+						}
+						if all {
+							rootKeyed = true
+						}
+					}
 					// the root uuid of the repo: the uuid field of a repoT, or the value side of repoToUUID
 					if isFieldLoad(d, "repoT", "uuid") {
 						rootKeyed = true
